@@ -50,6 +50,15 @@ EXTRA = {
     'C04-set-compression-when-offered-not-accepted': ['C06'],
     'C07-ping-timeout-only-while-active': ['C15'],
     'C07-sent-close-time-reset-on-every-close': ['C15', 'C08'],
+    'C08-control-limit-off-by-one-125': ['C01', 'C14'],
+    'C11-raw-send-after-compress-when-not-smaller': ['C03', 'C06'],
+    'C12-going-away-close-at-ping-timeout': ['C08'],
+    'C14-ping-between-compressed-fragments-inflated': ['C06', 'C01'],
+    'C14-receive-buffer-shared-by-sessions': ['C01', 'C17'],
+    'C10-valueless-extension-param-none': ['C06'],
+    'C18-send-pong-narrowed-transportfail-escapes': ['C14', 'C09'],
+    'C18-control-held-until-message-complete': ['C14'],
+    'C17-extensions-set-on-websocket-not-state': ['C10'],
 }
 
 
